@@ -30,7 +30,7 @@ pub fn prop() -> HistProp {
             long(p, t)
         },
         cfgs: cfg_strategy,
-        quick: 2000,
+        quick: 5000,
         thorough: 40000,
         mk: |_, _, _| Box::new(C08 { frozen: BTreeMap::new(), boundary_tx: false }),
         extra: None,
